@@ -1,4 +1,5 @@
 #!/bin/bash
+# WARNING: patches /repo itself - never use while other checks are running (use tools/seed_matrix.py, which works on scratch worktrees).
 # usage: mutant_run.sh <patch-file> <PROP> [extra check.py args...]
 # Applies the patch to /repo, runs the check, restores /repo. Prints the check's verdict lines.
 PATCH=$1; PROP=$2; shift 2
